@@ -289,7 +289,10 @@ class Formatter(FormatterInterface):
     def _(self, oper: L.Neg | L.Not) -> str:
         """Format a unary operation."""
         arg = self(oper.arg)
-        if oper.arg.precedence >= oper.precedence:
+        # Parenthesise also when the operand starts with the same character:
+        # "-" applied to the literal "-2.0" would otherwise read as the
+        # decrement operator "--2.0"
+        if oper.arg.precedence >= oper.precedence or arg.startswith(oper.op):
             return f"{oper.op}({arg})"
         return f"{oper.op}{arg}"
 
